@@ -1,64 +1,51 @@
-import HgVerif.Model.Intern
+import HgVerif.Model.InternKey
 import HgVerif.Driver.Proto
 /-!
 Model driver for the direct interning stream of C06: same line protocol as `harness/drv_intern.cpp`.
 
-The interning table is `HgVerif.Intern.addNode` (`Model/Intern.lean`) instantiated with a concrete key
-that mirrors `InstanceKey` of `graph_wiring.cpp` for the programs of this protocol:
+Every declaration is one `HgVerif.InternKey.step` (`Model/InternKey.lean`): the input labels are resolved
+to the nodes they were interned to, and `HgVerif.Intern.addNode` (`Model/Intern.lean`) is asked for the
+key `(defn, resolved inputs)`.  The concrete key mirrors `InstanceKey` of `graph_wiring.cpp` for the
+programs of this protocol:
 
-* `Key.defn`    — `InstanceKey::def` (the node definition; the resolved `WiringNodeSchema` is a function
-                   of the definition here, every node being concrete),
-* `Key.scalar`  — `InstanceKey::scalars` (one `Int` scalar),
-* `Key.inputs`  — `InstanceKey::inputs`, in slot order (`InputKey::target_path = {slot}`), each with
-  * `Src.peer`   — `SourceKey{kind = Peered, peered_node, peered_path, peered_output_kind}`
-                   (the producer is the *node id* the producer declaration was interned to),
-  * `Src.struct` — `SourceKey{kind = Structural, structural_children}` (children are peered here),
-  * `passive`    — `InputKey::passive` (`arg_tag == Passive` of the usage),
-  * `rank`       — `InputKey::rank_dependency`.
+* `defn = (definition, scalar)` — `InstanceKey::def` and `InstanceKey::scalars` (one `Int` scalar; the
+  resolved `WiringNodeSchema` is a function of the definition here, every node being concrete),
+* one entry per peered source of the inputs, in slot order, `(producer node, Att)`:
+  * producer node — `SourceKey::peered_node`, the node the producer declaration was interned to,
+  * `Att.slot`    — `InputKey::target_path = {slot}`,
+  * `Att.child`   — position inside a structural source (`SourceKey::structural_children`), `none` for a
+                    peered input (`SourceKey::kind`),
+  * `Att.path`    — `SourceKey::peered_path`,     `Att.err` — `SourceKey::peered_output_kind`,
+  * `Att.passive` — `InputKey::passive`,          `Att.rank` — `InputKey::rank_dependency`.
 
 `Wiring::add_node` calls `NodeBuilder::with_passive_inputs` before the table is consulted; it throws
-"passive would deactivate every input" when every input slot is passive: modelled by `allPassive`.
+"passive would deactivate every input" when every input slot is passive: `allPassive`.
 -/
-open HgVerif.Intern HgVerif.Driver
+open HgVerif.Intern HgVerif.InternKey HgVerif.Driver
 
-structure PSrc where
-  node : Nat
+structure Att where
+  slot : Nat
+  child : Option Nat
   path : List Nat
-  err : Bool            -- GraphEdgeSourceKind::ErrorOutput (else Output)
-  deriving DecidableEq
-
-inductive Src where
-  | peer (p : PSrc)
-  | struct (cs : List PSrc)
-  deriving DecidableEq
-
-structure InKey where
-  src : Src
+  err : Bool
   passive : Bool
   rank : Bool
   deriving DecidableEq
 
-structure Key where
-  defn : String
-  scalar : Nat
-  inputs : List InKey
-  deriving DecidableEq
+abbrev Defn := String × Nat
+abbrev D := LDecl String Defn Att
 
 inductive Ty where
   | ts | tsl | tsb | tsErr
   deriving DecidableEq
 
-structure Ent where
-  id : Nat
-  ty : Ty
-
 structure DS where
-  live : Bool := true                                  -- false once `finish` consumed the wiring
-  st : St Key := {}
-  ents : List (String × Ent) := []                     -- labels that denote an output port
-  used : List String := []                             -- every label declared so far
-  insts : List (Nat × String × List InKey) := []       -- created instances: id, first label, inputs
-  seen : List Nat := []                                -- value-node ids in first-seen order
+  live : Bool := true                                   -- false once `finish` consumed the wiring
+  ls : LSt String Defn Att := {}                        -- interning table + label ↦ node
+  tys : List (String × Ty) := []                        -- type of the port a label denotes
+  used : List String := []                              -- every label declared so far
+  insts : List (Nat × String × List (Nat × Att)) := []  -- created instances: id, first label, resolved inputs
+  seen : List Nat := []                                 -- value-node ids in first-seen order
 
 def isLabel (s : String) : Bool :=
   s ≠ "" && s.toList.all fun c => ('a' ≤ c && c ≤ 'z') || ('0' ≤ c && c ≤ '9') || c = '_'
@@ -68,28 +55,47 @@ def toNatStrict (s : String) : Option Nat :=
   if cs.isEmpty || cs.length > 9 || !(cs.all fun c => '0' ≤ c && c ≤ '9') then none
   else some (cs.foldl (fun acc c => acc * 10 + (c.toNat - '0'.toNat)) 0)
 
-def findEnt (d : DS) (l : String) : Option Ent := (d.ents.find? (·.1 = l)).map (·.2)
+def tyOf (d : DS) (l : String) : Option Ty := (d.tys.find? (·.1 = l)).map (·.2)
 
-/-- `<lbl>` | `<lbl>.<0|1>` | `<lbl>!`  →  the peered source and the type of the port -/
-def parseElem (d : DS) (cs : List Char) : Option (PSrc × Ty) :=
+/-- one peered source as written: producer label, sub-path, error output -/
+structure Elem where
+  lbl : String
+  path : List Nat
+  err : Bool
+
+/-- `<lbl>` | `<lbl>.<0|1>` | `<lbl>!`  →  the source and the type of the port -/
+def parseElem (d : DS) (cs : List Char) : Option (Elem × Ty) :=
+  let whole := (tyOf d (String.ofList cs)).map fun ty => (⟨String.ofList cs, [], false⟩, if ty = .tsErr then .ts else ty)
   match cs.reverse with
   | '!' :: r =>
-    match findEnt d (String.ofList r.reverse) with
-    | some e => if e.ty = .tsErr then some (⟨e.id, [], true⟩, .ts) else none
+    let l := String.ofList r.reverse
+    match tyOf d l with
+    | some ty => if ty = .tsErr then some (⟨l, [], true⟩, .ts) else none
     | none => none
   | c :: '.' :: r =>
     if (c = '0' || c = '1') && !r.isEmpty then
-      match findEnt d (String.ofList r.reverse) with
-      | some e => if e.ty = .tsl || e.ty = .tsb then some (⟨e.id, [if c = '0' then 0 else 1], false⟩, .ts) else none
+      let l := String.ofList r.reverse
+      match tyOf d l with
+      | some ty => if ty = .tsl || ty = .tsb then some (⟨l, [if c = '0' then 0 else 1], false⟩, .ts) else none
       | none => none
-    else (findEnt d (String.ofList cs)).map fun e => (⟨e.id, [], false⟩, if e.ty = .tsErr then .ts else e.ty)
-  | _ => (findEnt d (String.ofList cs)).map fun e => (⟨e.id, [], false⟩, if e.ty = .tsErr then .ts else e.ty)
+    else whole
+  | _ => whole
 
-/-- `[~][^]<body>`: the input key and whether it is acceptable for a `TSL` input / a `TS` input -/
-def parseInput (d : DS) (t : String) : Option (InKey × Bool × Bool) :=
+/-- one input slot as written -/
+structure Inp where
+  elems : List Elem        -- one peered source, or the two children of a structural source
+  structural : Bool
+  passive : Bool
+  rank : Bool
+  okTsl : Bool             -- acceptable for a `TSL<TS<Int>,2>` input
+  okTs : Bool              -- acceptable for a `TS<Int>` input
+
+/-- `[~][^]<body>` -/
+def parseInput (d : DS) (t : String) : Option Inp :=
   let cs := t.toList
   let (passive, cs) := match cs with | '~' :: r => (true, r) | _ => (false, cs)
   let (free, cs) := match cs with | '^' :: r => (true, r) | _ => (false, cs)
+  let single := (parseElem d cs).map fun (e, ty) => (⟨[e], false, passive, !free, ty = .tsl, ty = .ts⟩ : Inp)
   match cs with
   | '[' :: rest =>
     if !rest.isEmpty && rest.getLast? = some ']' then
@@ -97,11 +103,16 @@ def parseInput (d : DS) (t : String) : Option (InKey × Bool × Bool) :=
       match (String.ofList rest.dropLast).splitOn "," with
       | [a, b] =>
         match parseElem d a.toList, parseElem d b.toList with
-        | some (pa, .ts), some (pb, .ts) => some (⟨.struct [pa, pb], false, !free⟩, true, false)
+        | some (ea, .ts), some (eb, .ts) => some ⟨[ea, eb], true, false, !free, true, false⟩
         | _, _ => none
       | _ => none
-    else (parseElem d cs).map fun (p, ty) => (⟨.peer p, passive, !free⟩, ty = .tsl, ty = .ts)
-  | _ => (parseElem d cs).map fun (p, ty) => (⟨.peer p, passive, !free⟩, ty = .tsl, ty = .ts)
+    else single
+  | _ => single
+
+/-- the `(label, Att)` entries of input slot `slot` -/
+def entries (slot : Nat) (i : Inp) : List (String × Att) :=
+  (i.elems.zipIdx).map fun (e, j) =>
+    (e.lbl, ⟨slot, if i.structural then some j else none, e.path, e.err, i.passive, i.rank⟩)
 
 /-- arity and whether the (single) input is a `TSL`; `none` for an unknown definition -/
 def defInfo (sink : Bool) (defn : String) : Option (Nat × Bool) :=
@@ -116,7 +127,7 @@ def defInfo (sink : Bool) (defn : String) : Option (Nat × Bool) :=
   | _, _ => none
 
 /-- `NodeBuilder::with_passive_inputs`: every input slot would become passive -/
-def allPassive (ins : List InKey) : Bool := !ins.isEmpty && ins.all (·.passive)
+def allPassive (ins : List Inp) : Bool := !ins.isEmpty && ins.all (·.passive)
 
 /-- dense first-seen number of a value node -/
 def number (d : DS) (id : Nat) : DS × String :=
@@ -124,32 +135,28 @@ def number (d : DS) (id : Nat) : DS × String :=
   if i < d.seen.length then (d, s!"n{i}") else ({ d with seen := d.seen ++ [id] }, s!"n{d.seen.length}")
 
 /-- one `Wiring::add_node` -/
-def declare (d : DS) (lbl : String) (key : Key) (sink : Bool) : DS × Nat :=
-  let r := addNode d.st { key := key, sink := sink }
-  let created := r.1.next != d.st.next
-  ({ d with st := r.1, used := lbl :: d.used,
-            insts := if created then d.insts ++ [(r.2, lbl, key.inputs)] else d.insts }, r.2)
+def declare (d : DS) (decl : D) : DS × Nat :=
+  let r := step d.ls decl
+  let created := r.1.st.next != d.ls.st.next
+  ({ d with ls := r.1, used := decl.lbl :: d.used,
+            insts := if created then d.insts ++ [(r.2, decl.lbl, resolve d.ls.env decl.ins)] else d.insts }, r.2)
 
 def nameOf (d : DS) (id : Nat) : String :=
   match d.insts.find? (·.1 = id) with
   | some i => i.2.1
   | none => "?"
 
-def psrcStr (d : DS) (p : PSrc) : String :=
-  nameOf d p.node ++ String.join (p.path.map fun i => s!"@{i}") ++ (if p.err then "!" else "")
-
 def edgesOf (d : DS) : List String :=
-  d.insts.flatMap fun (_, lbl, ins) =>
-    (ins.zipIdx).flatMap fun (ik, slot) =>
-      match ik.src with
-      | .peer p => [s!"{psrcStr d p}>{lbl}.{slot}"]
-      | .struct cs => (cs.zipIdx).map fun (c, j) => s!"{psrcStr d c}>{lbl}.{slot}.{j}"
+  d.insts.flatMap fun (_, lbl, rins) =>
+    rins.map fun (src, a) =>
+      nameOf d src ++ String.join (a.path.map fun i => s!"@{i}") ++ (if a.err then "!" else "") ++
+        s!">{lbl}.{a.slot}" ++ (match a.child with | some j => s!".{j}" | none => "")
 
 def finishLine (d : DS) : String :=
   let es := (edgesOf d).mergeSort fun a b => decide (a ≤ b)
-  s!"nodes={d.st.next} edges={",".intercalate es}"
+  s!"nodes={d.ls.st.next} edges={",".intercalate es}"
 
-def step (d : DS) (ws : List String) : DS × String :=
+def stepLine (d : DS) (ws : List String) : DS × String :=
   match ws with
   | ["case", n] => ({}, s!"case {n}")
   | ["reset"] => ({}, "ok")
@@ -159,8 +166,8 @@ def step (d : DS) (ws : List String) : DS × String :=
     match ty, toNatStrict k with
     | some ty, some k =>
       if !d.live || !isLabel lbl || d.used.contains lbl then (d, "bad-op") else
-      let (d, id) := declare d lbl ⟨"src-" ++ kind, k, []⟩ false
-      number { d with ents := (lbl, ⟨id, ty⟩) :: d.ents } id
+      let (d, id) := declare d { lbl := lbl, defn := ("src-" ++ kind, k), ins := [], sink := false }
+      number { d with tys := (lbl, ty) :: d.tys } id
     | _, _ => (d, "bad-op")
   | op :: lbl :: defn :: k :: ins =>
     if op != "node" && op != "sink" then (d, "bad-op") else
@@ -171,14 +178,14 @@ def step (d : DS) (ws : List String) : DS × String :=
       let parsed := ins.map (parseInput d)
       if parsed.any (·.isNone) then (d, "bad-op") else
       let parsed := parsed.filterMap id
-      if parsed.any (fun (_, okTsl, okTs) => if wantsTsl then !okTsl else !okTs) then (d, "bad-op") else
-      let keys := parsed.map (·.1)
-      if allPassive keys then (d, "err") else
-      let (d, id) := declare d lbl ⟨defn, k, keys⟩ sink
-      if sink then (d, "sink") else number { d with ents := (lbl, ⟨id, .ts⟩) :: d.ents } id
+      if parsed.any (fun i => if wantsTsl then !i.okTsl else !i.okTs) then (d, "bad-op") else
+      if allPassive parsed then (d, "err") else
+      let es := (parsed.zipIdx).flatMap fun (i, slot) => entries slot i
+      let (d, id) := declare d { lbl := lbl, defn := (defn, k), ins := es, sink := sink }
+      if sink then (d, "sink") else number { d with tys := (lbl, .ts) :: d.tys } id
     | _, _ => (d, "bad-op")
-  | ["finish"] => if !d.live then (d, "bad-op") else ({ d with live := false, ents := [] }, finishLine d)
+  | ["finish"] => if !d.live then (d, "bad-op") else ({ d with live := false, tys := [] }, finishLine d)
   | [] => (d, "")
   | _ => (d, "bad-op")
 
-def main : IO Unit := run ({} : DS) step
+def main : IO Unit := run ({} : DS) stepLine
